@@ -65,7 +65,7 @@ struct Driver::DriverImpl
   std::vector<SocketRef> sockets; // guarded by stepMtx
   std::vector<pollfd> pfds; // front element belongs to internal signalling pipe; guarded by stepMtx
 
-  std::atomic<bool> shouldStop; ///< Flag for cancelling Run()
+  std::atomic<bool> shouldStop{false}; ///< Flag for cancelling Run()
 
   DriverImpl();
   DriverImpl(DriverImpl const &) = delete;
